@@ -50,6 +50,16 @@ inline std::vector<std::vector<int>> sequences(int a, int maxlen)
     return out;
 }
 
+// Address of the mutex / rwlock that `probe` acquires last (nullptr if it acquires none). Lets a harness talk
+// about "the wrapper's lock" in lock-model queries without naming a private member of the library.
+template<class F>
+inline const void* probe_lock(F&& probe)
+{
+    uint64_t before = mcrt::my_lock_ops();
+    probe();
+    return mcrt::my_lock_ops() != before ? mcrt::last_lock_acquired() : nullptr;
+}
+
 inline mcrt::Bounds tier_bounds(const mcrt::Options& o, int Pq, int Pt)
 {
     mcrt::Bounds b;
@@ -129,13 +139,14 @@ enum Site { SITE_COPY = 0, SITE_ASSIGN = 1, SITE_EQ = 2, SITE_FUNC = 3, SITE_PRE
 
 // Multi-word payload with invariant a == b whose torn state is observable and
 // whose operations contain scheduling points.
+extern bool g_no_faults;  // set while the harness itself (not client code) copies a payload
 struct Pair {
     int a, b;
     Pair(): a(0), b(0) {}
     explicit Pair(int v): a(v), b(v) {}
     Pair(const Pair& o)
     {
-        mcrt::may_throw(SITE_COPY);
+        if (!g_no_faults) mcrt::may_throw(SITE_COPY);
         ReadWin r(&o, "copy-construct (source)");
         a = o.a;
         mcrt::point();
@@ -143,7 +154,7 @@ struct Pair {
     }
     Pair& operator=(const Pair& o)
     {
-        mcrt::may_throw(SITE_ASSIGN);
+        if (!g_no_faults) mcrt::may_throw(SITE_ASSIGN);
         WriteWin w(this, "assignment (target)");
         ReadWin r(&o, "assignment (source)");
         a = o.a;
@@ -153,7 +164,7 @@ struct Pair {
     }
     bool operator==(const Pair& o) const
     {
-        mcrt::may_throw(SITE_EQ);
+        if (!g_no_faults) mcrt::may_throw(SITE_EQ);
         ReadWin r1(this, "compare"), r2(&o, "compare");
         bool x = (a == o.a);
         mcrt::point();
@@ -188,5 +199,6 @@ namespace hx {
 WinSlot g_win[32];
 int g_nwin;
 uint64_t g_win_shared_reads;
+bool g_no_faults = false;
 }  // namespace hx
 #endif
